@@ -474,7 +474,7 @@ def _twice_claims(alg, op):
     out = []
     import re
     for (name, keys), n in sorted(kapi.generated_more_than_once(alg).items(), key=str)[:5]:
-        name = re.sub(r'_\d+$', '', name)          # registrations carry a process-wide serial number: not part of the finding
+        name = re.sub(r'^(compile:|codegen:)?r\d+_', r'\1', name)          # registrations carry a process-wide serial number: not part of the finding
         out.append(Fail(f'generated-twice[{name}]', f'code for {name} with key patterns {keys} was generated {n} times on one algebra',
                         fkey=f'history|generated-more-than-once|{"same-operator" if name.replace("compile:", "").endswith(op) or op in name else "nested-operator"}'))
     return out
